@@ -72,7 +72,9 @@ def run(tier: str, seed: int) -> int:
     quick = tier == "quick"
     jobs, plan = [], []
     for rk in RKINDS:
-        nl, nr, ns, which = (2, 2, 64, range(0, 2)) if quick else (3, 2, 16, None)
+        # thorough: a quarter of the 16 shards per right-frame kind (which quarter depends on the seed); all of them, with the Dask-left
+        # repetition of every configuration, take more than 4 h on 16 loaded cores
+        nl, nr, ns, which = (2, 2, 64, range(0, 2)) if quick else (3, 2, 16, range(seed % 4, 16, 4))
         if quick and rk in ("ring", "multipoint", "multiline", "point"):
             which = range(0, 1)
         js = shard_jobs("MC_SJoin", dict(constants=dict(RKind=rk, NL=nl, NR=nr, MaxPS=2, AllPerms=not quick, Styles={0, 1} if quick else {0, 1, 2},
@@ -176,7 +178,7 @@ def run(tier: str, seed: int) -> int:
     if bad and len(chk.violations) + sum(chk.known_hits.values()) == before:
         raise MachineryError("MC_SJoin: DesignExact violated but the code agrees with P on every configuration: SJoin!DPairs mis-describes the code\n"
                              + bad[0].out[bad[0].out.index("Error:"):][:1200])
-    chk.exhaustive = True
+    chk.exhaustive = False      # shards of the configurations are sampled in both tiers (each shard exhaustively)
     # code -> spec
     recs = []
     for a in range(30 if quick else 600):
